@@ -437,8 +437,15 @@ func getRange(max sutils.CValueEnclosure, min sutils.CValueEnclosure) (*sutils.C
 			result.Dtype = sutils.SS_DT_FLOAT
 			result.CVal = float64(max.CVal.(int64)) - min.CVal.(float64)
 		case sutils.SS_DT_SIGNED_NUM:
-			result.Dtype = sutils.SS_DT_SIGNED_NUM
-			result.CVal = max.CVal.(int64) - min.CVal.(int64)
+			// max - min does not fit an int64 when the values lie far apart on both sides of 0
+			diff := max.CVal.(int64) - min.CVal.(int64)
+			if diff < 0 {
+				result.Dtype = sutils.SS_DT_FLOAT
+				result.CVal = float64(max.CVal.(int64)) - float64(min.CVal.(int64))
+			} else {
+				result.Dtype = sutils.SS_DT_SIGNED_NUM
+				result.CVal = diff
+			}
 		default:
 			return nil, fmt.Errorf("getRange: unsupported dtype: %v", min.Dtype)
 		}
@@ -519,8 +526,8 @@ func GetSegSum(runningSegStat *structs.SegStats,
 			rSst.FloatVal = runningSegStat.NumStats.Sum.FloatVal
 			rSst.Ntype = sutils.SS_DT_FLOAT
 		} else {
-			runningSegStat.NumStats.Sum.IntgrVal = runningSegStat.NumStats.Sum.IntgrVal + currSegStat.NumStats.Sum.IntgrVal
-			rSst.IntgrVal = runningSegStat.NumStats.Sum.IntgrVal
+			runningSegStat.NumStats.Sum.AddToIntSum(currSegStat.NumStats.Sum.IntgrVal)
+			rSst = runningSegStat.NumStats.Sum
 		}
 	}
 
